@@ -57,6 +57,8 @@ def generate(rng, tier):
     files = dict(t.files)
     srcs = list(t.reach)
     roots = [t.root]
+    if len(srcs) == 1 and rng.chance(12):
+        files[t.root] = "#![rustfmt::skip]\n" + files[t.root]  # the whole source opts out
     # sometimes a second input on the same command line (an emitter's state must survive between inputs)
     nextra = rng.choice([0, 0, 0, 1, 1, 2])
     for j in range(nextra):
@@ -427,10 +429,22 @@ def execute(case):
                 v.add("C06:stdin-vs-path-text", "%s: text for the source on stdin (%d bytes) != text for the path (%d bytes)" % (f, len(ri.stdout), len(T[f])))
             if sf and any("SHORT" in e.raw or e.fault for e in ri.events):
                 v.fired("short" if sf != 2 else "eintr")
-            if f in T:  # an opted-out source on stdin is echoed back verbatim, whatever the emit mode
-                rij, _ = run("stdin-json", ["--emit", "json"], stdin=orig[f], cwd=d)
+            rij, _ = run("stdin-json", ["--emit", "json"], stdin=orig[f], cwd=d)
+            if f in T:
                 _judge_json(v, rij.stdout, "stdin-json", srcs, orig, T, cwd_abs, sc.root, stdin_file=f)
             ric, _ = run("stdin-check", ["--check"], stdin=orig[f], cwd=d)
+            if f not in T and rs.exit == 0 and not core.abnormal(rij) and not core.abnormal(ric):
+                # a source that opts out as a whole: the plain stdin run echoes it (that is its text); the report
+                # modes have nothing to report, exactly as for the same source given as a path
+                try:
+                    ok = json.loads(core.text_of(rij.stdout) or "null") == []
+                except ValueError:
+                    ok = False
+                if not ok:
+                    v.add("C06:stdin-report-not-a-report|json", "%s opts out: --emit json on stdin printed %r instead of an empty report" % (f, core.text_of(rij.stdout)[:120]))
+                if ric.stdout.strip():
+                    v.add("C06:stdin-report-not-a-report|check", "%s opts out: --check on stdin printed %r" % (f, core.text_of(ric.stdout)[:120]))
+                v.probe("opted-out-source-on-stdin")
             dch, nlo = parse_diff(core.text_of(ric.stdout).replace("Diff in <stdin>:", "Diff in %s:" % os.path.basename(f)),
                                   os.path.join(sc.root, d), sc.root, known)
             if f in T and apply_chunks(lines_of(_strip_bom(orig[f])), dch.get(f, [])) != lines_of(T[f]):
